@@ -54,6 +54,7 @@ type H05 struct {
 	iterTest map[ssa.Instruction]*ssa.BasicBlock
 	phiAcc   H05Accept
 	phiAccF  *H05Frame
+	inPredicate map[*ssa.Function]bool // helpers being walked by predicateCall
 }
 
 type h05tkey struct {
@@ -1629,6 +1630,9 @@ func (ev *h05eval) eval(v ssa.Value, b, pred *ssa.BasicBlock, d int) (abs H05Abs
 			if a, t, ok := ev.throughCall(x, 0, b, pred, d); ok {
 				return a, t
 			}
+			if a, t, ok := ev.predicateCall(x, b, pred, d); ok {
+				return a, t
+			}
 		}
 		for _, a := range x.Call.Args {
 			if _, ok := ev.env[a]; ok {
@@ -1695,6 +1699,73 @@ func (ev *h05eval) throughCall(c *ssa.Call, idx int, b, pred *ssa.BasicBlock, d 
 	}
 	if n == 0 {
 		return H05Abs{}, false, false
+	}
+	return out, touched, true
+}
+
+// predicateCall: the single basic-typed result of a call to a small followable helper (a named test such as
+// `isExpiredOrExempt(status)`), found by walking the helper with the abstract values of the arguments: the
+// value every return that can be reached yields, if they all agree. Side effects of the helper are of no
+// concern here (only the value is asked for).
+func (ev *h05eval) predicateCall(c *ssa.Call, b, pred *ssa.BasicBlock, d int) (H05Abs, bool, bool) {
+	callee := c.Call.StaticCallee()
+	if c.Call.IsInvoke() || callee == nil || callee.Blocks == nil || len(callee.Blocks) > 24 || d > 4 || !ev.e.Follow(callee) ||
+		ev.e.Anchors[FuncName(callee)] || ev.e.inPredicate[callee] || len(callee.Params) != len(c.Call.Args) {
+		return H05Abs{}, false, false
+	}
+	if bt, ok := callee.Signature.Results().At(0).Type().Underlying().(*types.Basic); !ok || bt.Info()&(types.IsBoolean|types.IsInteger|types.IsString) == 0 {
+		return H05Abs{}, false, false
+	}
+	env := H05Env{}
+	touched := false
+	for i, p := range callee.Params {
+		if a, t := ev.eval(c.Call.Args[i], b, pred, d+1); a.Kind != H05Unknown {
+			env[p] = a
+			touched = touched || t
+		}
+	}
+	entry := callee.Blocks[0]
+	if len(env) == 0 || len(entry.Instrs) == 0 {
+		return H05Abs{}, false, false
+	}
+	if ev.e.inPredicate == nil {
+		ev.e.inPredicate = map[*ssa.Function]bool{}
+	}
+	ev.e.inPredicate[callee] = true
+	savedAvoid := ev.e.avoid
+	ev.e.avoid = nil
+	defer func() { delete(ev.e.inPredicate, callee); ev.e.avoid = savedAvoid }()
+	var out H05Abs
+	n, agree := 0, true
+	for _, r := range Returns(callee) {
+		if r.Block().Comment == "recover" || len(r.Results) != 1 {
+			continue
+		}
+		r := r
+		acc := func(p *ssa.BasicBlock, full H05Env) bool {
+			a := ev.e.ResultsAt(r, p, full)[0]
+			switch {
+			case a.Kind == H05Unknown, n > 0 && !h05AbsEqual(out, a):
+				agree = false
+			default:
+				out = a
+				n++
+			}
+			return false // every arrival is inspected
+		}
+		if r == entry.Instrs[0] {
+			acc(nil, env)
+			continue
+		}
+		if _, imp := ev.e.ReachUnder(entry.Instrs[0], r, env, acc); imp {
+			agree = false
+		}
+		if !agree {
+			break
+		}
+	}
+	if !agree || n == 0 {
+		return H05Abs{}, touched, false
 	}
 	return out, touched, true
 }
